@@ -59,6 +59,9 @@ int vp_harness_main(void) {
   ss_mk(&s, m, CAPK);
   uint64_t n = s.f2;
   ASSERT(ss_inv(&s), "constructed state satisfies Inv (harness self-check)");
+#ifdef FAULT
+  { uint32_t fk = vp_in_u32(); ASSUME(fk < FAULT); vp_fail_alloc_at = vp_alloc_count + (int)fk; }   /* C19: exactly this allocation throws std::bad_alloc */
+#endif
   uint8_t add[A + 1]; uint64_t an = vp_in_u64(); ASSUME(an <= A);
   for (int i = 0; i < A; i++) add[i] = vp_in_u8();
 #if OP == 1 || OP == 17 || OP == 18
@@ -149,6 +152,16 @@ int vp_harness_main(void) {
       else { xa[el++] = (uint8_t)(0xF0 + v / 262144u); xa[el++] = (uint8_t)(0x80 + (v / 4096u) % 64u); xa[el++] = (uint8_t)(0x80 + (v / 64u) % 64u); xa[el++] = (uint8_t)(0x80 + v % 64u); } } }
 #else
 #error "unknown OP"
+#endif
+#ifdef FAULT
+  vp_fail_alloc_at = -1;
+  if (vp_exc_pending) {
+    ASSERT(vp_exc_kind == VP_EXC_BAD_ALLOC, "allocation failure surfaces as std::bad_alloc");
+    ASSERT(ss_inv(&s), "after a failed growth the stream still satisfies Inv (capacity not relabelled, data pointer not released)");
+    ASSERT(ss_eq(&s, m, n), "after a failed growth the stream holds its previous content");
+    REACH("allocation-failure path");
+    vp_clear_exception(); el = 0;
+  }
 #endif
   ASSERT(!vp_exc_pending, "the operation does not throw");
   if (s_alive) {
